@@ -266,6 +266,10 @@ pub fn c19_build(raw: &Raw, _tier: Tier, _sched: bool) -> Scenario {
     let shared = b.sub(SubKind::Direct);
     // when the shared object is released by store 0 it unsubscribes itself from store 1 as well
     // (a callback of one store operating on the other one)
+    if knob(raw, 14) % 2 == 1 && (knob(raw, 14) >> 3) % 2 == 0 {
+        // the shared object is the crate's FnSubscriber wrapper (one object for both stores)
+        b.sub_mut(shared).fn_wrapped = true;
+    }
     if knob(raw, 14) % 2 == 0 {
         b.sub_mut(shared).on_unsub_ops = vec![Op::Unsubscribe { store: 1, sub: shared }];
         if (knob(raw, 14) >> 2) % 2 == 0 {
@@ -497,7 +501,7 @@ pub fn c19_check(scn: &Scenario, h: &History) -> Outcome {
 
 pub static C19: Profile = Profile {
     id: "C19",
-    rule: "proptest scenarios: two stores with equal or different configuration (same name half of the time, the same scripted reducer/middleware types, one subscriber object registered in both plus a private one each, in half of the cases also one SelectorSubscriber object registered in both, the two stores selecting disjoint values), 1-4 client threads operating on both (dispatch through every entry point, thunks, get_state, get_metrics, unsubscribe of the shared subscriber from store 0 (whose on_unsubscribe may in turn unsubscribe it from store 1 and register a successor there); a subscriber of store 0 forwarding actions into store 1 from store 0's reducer thread; in half of the cases every reducer and middleware of one store calls get_state() of the other store from inside its callbacks), store 0 stopped or dropped at a generated point while store 1 is in use. Oracle O-ISOL: the C01/C03/C07/C12 pipeline model, effect, acceptance and C18 metric equations evaluated per store on that store's sub-log; no callback of one store ever carries a component or action of the other; store 1 keeps accepting and reducing after Ret(stop store 0). Non-trivial = store 1 had an action in flight while store 0 was being stopped, or was used after it; distinct by scenario hash.",
+    rule: "proptest scenarios: two stores with equal or different configuration (same name half of the time, the same scripted reducer/middleware types, one subscriber object registered in both (a scripted Subscriber, or the crate's FnSubscriber wrapper) plus a private one each, in half of the cases also one SelectorSubscriber object registered in both, the two stores selecting disjoint values), 1-4 client threads operating on both (dispatch through every entry point, thunks, get_state, get_metrics, unsubscribe of the shared subscriber from store 0 (whose on_unsubscribe may in turn unsubscribe it from store 1 and register a successor there); a subscriber of store 0 forwarding actions into store 1 from store 0's reducer thread; in half of the cases every reducer and middleware of one store calls get_state() of the other store from inside its callbacks), store 0 stopped or dropped at a generated point while store 1 is in use. Oracle O-ISOL: the C01/C03/C07/C12 pipeline model, effect, acceptance and C18 metric equations evaluated per store on that store's sub-log; no callback of one store ever carries a component or action of the other; store 1 keeps accepting and reducing after Ret(stop store 0). Non-trivial = store 1 had an action in flight while store 0 was being stopped, or was used after it; distinct by scenario hash.",
     raw,
     build: c19_build,
     check: c19_check,
